@@ -290,8 +290,8 @@ SITES = [
          params=["dgc", "dmax", "sgc", "smax"], must=None, fallback="andb (N.ltb dgc sgc) (N.ltb dmax sgc)"),
     # NodeState::try_set_heartbeat
     dict(name="hb_first", file="state.rs", fn="try_set_heartbeat", how="if", ty="N",
-         vars=paths(("self.heartbeat.0", "hb")),
-         params=["hb"], must={"hb"}, fallback="N.eqb hb 0%N"),
+         vars=paths(("self.heartbeat.0", "hb"), ("heartbeat_new_value.0", "nhb")),
+         params=["hb", "nhb"], must=dict(include={"hb"}), fallback="N.eqb hb 0%N"),
     dict(name="hb_fresh", file="state.rs", fn="try_set_heartbeat", how="if", ty="N",
          vars=paths(("heartbeat_new_value", "nhb"), ("self.heartbeat", "hb"), ("heartbeat_new_value.0", "nhb"), ("self.heartbeat.0", "hb")),
          params=["nhb", "hb"], must={"nhb", "hb"}, fallback="N.ltb hb nhb"),
